@@ -1,11 +1,146 @@
-(* C06 - packet field codecs: property theorems only.  Model: Model/C06.v; proofs: Proofs/C06*.v *)
-From Coq Require Import List NArith ZArith.
-From GoMC Require Import Base.Bytes Base.Dec Gen.Consts Model.C05 Model.C06 Proofs.C06.
+(* C06 - packet field codecs: property theorems only.
+   Model: Model/C06.v (faithful to net/packet after the fix commits); proofs: Proofs/C06*.v *)
+From Coq Require Import List NArith ZArith Lia.
+From GoMC Require Import Base.Bytes Base.Dec Gen.Consts Model.C05 Model.C06
+  Proofs.C06 Proofs.C06_read Proofs.C06_pos Proofs.C06_comb Proofs.C06_more.
 Import ListNotations.
 Open Scope N_scope.
 
-(* the count every WriteTo returns is the number of bytes it produced, for every type and value *)
+(* ROUND TRIP, DESTINATION-STATE INDEPENDENCE, EXACT COUNT, NO OVER-READ - for every type of the universe
+   (arbitrary nesting of Ary over the eight prefix types / Option / Opt / Tuple over the 17 leaf types),
+   every value of the protocol domain, EVERY prior destination state `old` (any value whatsoever:
+   nil, shorter, longer, spare capacity with stale elements, even ill-typed) and every trailing input:
+   the reader returns a protocol-equal value, the count it returns is the number of bytes written, and
+   the trailing input is left untouched. *)
+Theorem C06_roundtrip : forall t v fuel, in_dom t v -> (need t v <= fuel)%nat ->
+  forall old rest, exists r,
+    run_flat (read_f fuel t old) (fst (wr t v) ++ rest) = FOk (r, lenN (fst (wr t v))) rest
+    /\ view t r = view t v.
+Proof. exact roundtrip_all. Qed.
+
+(* WIRE LAYOUT: the bytes written are the protocol's layout (big-endian two's complement, minimal
+   LEB128 prefixes, x:26|z:26|y:12 positions, Boolean-prefixed optionals, concatenation) *)
+Theorem C06_layout : forall t v, in_dom t v -> fst (wr t v) = spec_img t v.
+Proof. exact layout_all. Qed.
+
+(* Position: the packing holds for ALL integers (out-of-range coordinates are truncated to 26/12/26 bits),
+   and the whole signed cube round-trips *)
+Theorem C06_position_layout : forall x y z,
+  pos_pack x y z = twos 26 x * 2^38 + twos 26 z * 2^12 + twos 12 y.
+Proof. exact pos_pack_spec. Qed.
+Theorem C06_position_cube : forall x y z rest,
+  (-2^25 <= x < 2^25)%Z -> (-2^11 <= y < 2^11)%Z -> (-2^25 <= z < 2^25)%Z ->
+  run_flat r_pos (fst (w_pos x y z) ++ rest) = FOk (VPos x y z, 8) rest.
+Proof. exact rt_pos. Qed.
+
+(* BYTE COUNTS: WriteTo's count = bytes produced (every type, every value, in the domain or not);
+   ReadFrom's count = bytes consumed on EVERY input on which it succeeds (not only on images), and the
+   bytes consumed are a prefix of the input *)
 Theorem C06_count_write : forall t v, snd (wr t v) = lenN (fst (wr t v)).
 Proof. exact wr_count. Qed.
+Theorem C06_count_read : forall fuel t old s r n rest,
+  run_flat (read_f fuel t old) s = FOk (r, n) rest -> exists c, s = c ++ rest /\ lenN c = n.
+Proof. exact read_consumes_prefix. Qed.
 
+(* no reader panics, whatever the input and whatever the destination held (negative and oversized
+   length prefixes included); and none issues a bare Read (fragmentation-proof, feeds C09) *)
+Theorem C06_no_panic : forall fuel t old s, not_panic (run_flat (read_f fuel t old) s).
+Proof. exact read_never_panics. Qed.
+Theorem C06_robust : forall fuel t old, robust (read_f fuel t old).
+Proof. exact read_f_robust. Qed.
+
+(* WHAT MUST NOT CHANGE: an absent Option leaves Val exactly as it was and consumes one byte; an Opt whose
+   Has is false neither writes, nor reads, nor touches the destination *)
+Theorem C06_option_absent_frame : forall fuel e h x rest,
+  run_flat (read_f fuel (TOption e) (VOpt h x)) (0 :: rest) = FOk (VOpt false x, 1) rest.
+Proof. exact option_absent_frame. Qed.
+Theorem C06_opt_off_frame : forall fuel e old v s,
+  wr (TOpt false e) v = ([], 0) /\ run_flat (read_f fuel (TOpt false e) old) s = FOk (old, 0) s.
+Proof. intros. split; [apply opt_off_writes_nothing|apply opt_off_frame]. Qed.
+
+(* COMBINATORS, PARAMETRIC IN THE ELEMENT CODEC: for ANY element reader/writer pair (not only those of
+   the universe) that round-trips each element into any prior slot content, Ary over any of the eight
+   prefix types round-trips into any destination slice state; same for Option *)
+Theorem C06_ary_parametric : forall (re : fval -> rd) (we : fval -> wres) (vw : fval -> fval),
+  (forall o, robust (re o)) ->
+  forall l zero xs fuel old rest,
+  Forall (elem_ok re we vw) xs -> (length xs <= fuel)%nat -> (Z.of_N (lenN xs) <= lenk_max l)%Z ->
+  let img := fst (wcat (w_len l (Z.of_N (lenN xs))) (w_seq we xs)) in
+  exists rs, run_flat (r_ary fuel l re zero old) (img ++ rest) = FOk (VList rs [], lenN img) rest
+             /\ map vw rs = map vw xs.
+Proof. exact ary_parametric. Qed.
+Theorem C06_option_parametric : forall (re : fval -> rd) (we : fval -> wres) (vw : fval -> fval),
+  (forall o, robust (re o)) ->
+  forall zero v old rest, elem_ok re we vw v ->
+  let img := fst (wcat (w_bool true) (we v)) in
+  exists r, run_flat (r_option re zero old) (img ++ rest) = FOk (VOpt true r, lenN img) rest /\ vw r = vw v.
+Proof. exact option_parametric. Qed.
+
+(* SEQUENTIAL COMPOSITION: Scan (Marshal fields ++ extra) gives the fields back in order, whatever the
+   variables scanned into held before, and ignores what follows; Scan never panics on any data *)
+Theorem C06_compose : forall fuel (fs : list fld) (extra : list N),
+  Forall (fld_ok fuel) fs ->
+  exists rs, run_flat (scan fuel (map (fun f => (f_ty f, f_old f)) fs))
+                      (marshal (map (fun f => (f_ty f, f_val f)) fs) ++ extra) = FOk rs extra
+             /\ Forall2 (fun f r => view (f_ty f) r = view (f_ty f) (f_val f)) fs rs.
+Proof. exact scan_marshal. Qed.
+Theorem C06_scan_no_panic : forall fuel fs s, not_panic (run_flat (scan fuel fs) s).
+Proof. exact scan_never_panics. Qed.
+
+(* context-sized fields *)
+Theorem C06_fixedbitset : forall bs old rest, lenN old = lenN bs ->
+  run_flat (r_fixedbitset old) (fst (w_raw bs) ++ rest) = FOk (bs, lenN (fst (w_raw bs))) rest.
+Proof. exact rt_fixedbitset. Qed.
+Theorem C06_plugin : forall bs, r_plugin (fst (w_raw bs)) = FOk (bs, lenN (fst (w_raw bs))) [].
+Proof. exact rt_plugin. Qed.
+
+(* ---- non-vacuity: the hypotheses are satisfiable by non-trivial instances, and the conclusions compute *)
+Definition ex_t := TAry LUByte (TOption TString).
+Definition ex_v := VList [VOpt true (VBytes [104; 105] []); VOpt false VUnit] [].
+(* a LONGER destination with a stale third element and a hidden fourth one in spare capacity *)
+Definition ex_old := VList [VOpt true (VBytes [1] [2;3]); VOpt true (VBytes [7;7] []); VOpt true (VBytes [9] [])]
+                           [VOpt false (VBytes [8] [])].
+Example C06_ex_dom : in_dom ex_t ex_v /\ (need ex_t ex_v <= 2)%nat.
+Proof.
+  split; [|vm_compute; repeat constructor].
+  exists [VOpt true (VBytes [104; 105] []); VOpt false VUnit], []. split; [reflexivity|]. split.
+  - constructor; [|constructor; [|constructor]].
+    + exists true, (VBytes [104; 105] []). split; [reflexivity|]. intros _.
+      exists [104; 105], []. split; [reflexivity|]. split; [|reflexivity].
+      repeat constructor.
+    + exists false, VUnit. split; [reflexivity|]. discriminate.
+  - vm_compute. discriminate.
+Qed.
+Example C06_ex_run :
+  fst (wr ex_t ex_v) = [2; 1; 2; 104; 105; 0] /\
+  run_flat (read_f 2 ex_t ex_old) (fst (wr ex_t ex_v) ++ [99])
+  = FOk (VList [VOpt true (VBytes [104; 105] []); VOpt false (VBytes [7;7] [])] [], 6) [99].
+Proof. split; vm_compute; reflexivity. Qed.
+Example C06_ex_pos : fst (w_pos (-1) (-2) 3) = [255; 255; 255; 192; 0; 0; 63; 254].
+Proof. vm_compute. reflexivity. Qed.
+Example C06_ex_elem_ok : Forall (elem_ok (fun _ => r_varint) (fun v => w_varint (zof v)) (fun v => v)) [VZ 300; VZ (-1)].
+Proof.
+  repeat constructor; intros old rest; eexists; (split; [apply rt_varint; cbn; lia|reflexivity]).
+Qed.
+Example C06_ex_fld : Forall (fld_ok 2) [(ex_t, ex_v, ex_old); (TVarInt, VZ 300, VZ 5)].
+Proof.
+  constructor; [exact C06_ex_dom|]. constructor; [|constructor].
+  split; [exists 300%Z; split; [reflexivity|cbn; lia]|vm_compute; repeat constructor].
+Qed.
+
+Print Assumptions C06_roundtrip.
+Print Assumptions C06_layout.
+Print Assumptions C06_position_layout.
+Print Assumptions C06_position_cube.
 Print Assumptions C06_count_write.
+Print Assumptions C06_count_read.
+Print Assumptions C06_no_panic.
+Print Assumptions C06_robust.
+Print Assumptions C06_option_absent_frame.
+Print Assumptions C06_opt_off_frame.
+Print Assumptions C06_ary_parametric.
+Print Assumptions C06_option_parametric.
+Print Assumptions C06_compose.
+Print Assumptions C06_scan_no_panic.
+Print Assumptions C06_fixedbitset.
+Print Assumptions C06_plugin.
